@@ -60,7 +60,7 @@ var corpus = [][]string{
 		"a{color:red;margin:0 auto}", "@media screen and (min-width:100px){.x>y~z{top:-1.5e3px}}", "/* c */ @import url(\"x.css\"); b{}", ".a:not(.b)::before{content:\"\\201C\";background:url( x.png )}",
 		"@font-face{font-family:x;src:url(a)}", "color:#fff;width:calc(1px + 2%)", "a{b:c!important;--v:{x}}", "@charset \"utf-8\";<!-- x --> u+0-7F", "x{y:1e}", "@supports (display:grid) and (not (display:inline-grid)){a{b:c}}",
 		"a{\n  color : RED ;\n  background: URL(data:image/png;base64,AAAA) no-repeat\n}\n\n.b { margin:-0.5em 1E3px +.5% }", "h1,h2>h3+h4{font:12px/1.5 \"Helvetica Neue\",sans-serif}", "@keyframes k{from{left:0}50.5%{left:1px}to{left:2px}}",
-		".é\\26 x{content:'\\'';width:1e+2px;u:U+26??}", "@page :first{margin:1in}@namespace svg url(http://www.w3.org/2000/svg);", "a[href^='http'],b[c|=d i]{e:f}", "@media(max-width:10px){@media print{a{b:c}}}", "div{grid-template-areas:\"a b\"\n\"c d\";}", "a{b:c;;d:e}}f{g:h", "x{color:rgb(1 2 3 / 50%);w:min(1px,2em)}",
+		".é\\26 x{content:'\\'';width:1e+2px;u:U+26??}", "@page :first{margin:1in}@namespace svg url(http://www.w3.org/2000/svg);", "a[href^='http'],b[c|=d i]{e:f}", "@media(max-width:10px){@media print{a{b:c}}}", "div{grid-template-areas:\"a b\"\n\"c d\";}", "a{b:c;;d:e}}f{g:h", "x{color:rgb(1 2 3 / 50%);w:min(1px,2em)}", "*color:red;*zoom:1", "a{*color:red;_height:1px}", "* color:red;*é:1",
 	},
 	1: { // html
 		"<!doctype html><html><body class=a id='b'>text &amp; more<br/></body></html>", "<script>var a = '</scr' + 'ipt>';</script><style>a{}</style>", "<a href=\"x\" {{ if .X }}disabled{{ end }}>{{ .Y }}</a>",
@@ -99,6 +99,9 @@ var corpus = [][]string{
 // between whichever goroutines use it) is therefore banned on the task path - with it, about
 // 3 of 4 conflicting access pairs became "ordered" and the detector went blind (found with
 // seeded change c20a-2, see DESIGN.md 10.2). Only strconv and append are used.
+var sharedEntities = map[string][]byte{"amp": []byte("&"), "lt": []byte("<"), "gt": []byte(">"), "quot": []byte("\""), "apos": []byte("'"), "varphi": []byte("phi"), "nbsp": []byte("\u00a0")}
+var sharedRevEntities = map[byte][]byte{'\'': []byte("&#39;"), '"': []byte("&#34;")}
+
 type tr struct {
 	b    []byte
 	held [][]byte // slices the library handed out, kept by reference and re-read at the end
@@ -404,8 +407,9 @@ func runWorkloadIn(in wlInput, scratch []byte) (out []byte) {
 		call()
 		t.add("ws", parse.ReplaceMultipleWhitespace(cp()))
 		call()
-		ents := map[string][]byte{"amp": []byte("&"), "lt": []byte("<"), "quot": []byte("\""), "varphi": []byte("phi")}
-		rev := map[byte][]byte{'\'': []byte("&#39;"), '"': []byte("&#34;")}
+		// entity tables are shared read-only configuration, as real callers keep them in
+		// package-level variables; the buffers they are applied to are private
+		ents, rev := sharedEntities, sharedRevEntities
 		t.add("ents", parse.ReplaceEntities(cp(), ents, rev))
 		call()
 		t.add("wsents", parse.ReplaceMultipleWhitespaceAndEntities(cp(), ents, rev))
